@@ -20,6 +20,7 @@ ASSUMPTIONS = ["poll interleavings / fragmentation of the byte streams are not e
 TRUSTED = ["tokio oneshot delivers at most one value"]
 
 MUTANTS = [
+    {"name": "need_flush-false-without-timer", "file": "src/common/batch.rs", "old": "        let mut flush = false;\n        match Pin::new(&mut self.flush_timer).poll_tick(cx) {", "new": "        if self.curr_wbuf_content_size < flush_size / 2 {\n            return false;\n        }\n        let mut flush = false;\n        match Pin::new(&mut self.flush_timer).poll_tick(cx) {", "expect": "C08.D5:need_flush"},
     {"name": "pop-back", "file": "src/proxy/backend.rs", "old": "                let mut task = match tasks.pop_front() {", "new": "                let mut task = match tasks.pop_back() {", "expect": "C08.D2:fifo-ops"},
     {"name": "drop-does-not-answer", "file": "src/proxy/command.rs", "old": "        self.try_send(Err(CommandError::Dropped));", "new": "        let _ = self.reply_sender.is_some();", "expect": "C08.D1"},
     {"name": "channel-peeked-not-taken", "file": "src/proxy/command.rs", "old": "        match self.try_send(res) {\n            Some(res) => res,", "new": "        if self.reply_sender.is_none() {\n            return Ok(());\n        }\n        match self.try_send(res) {\n            Some(res) => res,", "expect": "C08.D1:channel-only-via-take"},
@@ -38,8 +39,10 @@ def run(ctx):
     ctx.rule("C08.D1", "send-once typestate: set_result / set_resp_result by value in all CmdTask impls; reply channel Option + take(); Drop answers Dropped; not Clone")
     ctx.rule("C08.D2", "FIFO discipline in handle_conn: only FIFO queue operations, one packet per task, popped packet is sent, one task popped per packet read and handled")
     ctx.rule("C08.D3", "failure drains: every error return drains all tasks into handle_conn_err (retry all or answer each); reconnect failure answers carried-over tasks")
+    ctx.rule("C08.D5", "buffered requests are eventually flushed: with bytes pending, BatchState::need_flush answers false only after polling the flush timer (a wake-up is registered), and answers true when batching is disabled")
     ctx.rule("C08.D4", "session side: reply futures and replies are queued and consumed in FIFO order only, each handled command contributes one queued future, a popped reply is sent, and the write loop never reports completion without flushing")
     _session(ctx)
+    _flush_liveness(ctx)
     _typestate(ctx)
     _fifo(ctx)
     _drains(ctx)
@@ -373,3 +376,49 @@ def _session(ctx):
         succ_none = None
         # the None arm of the pop: flush must be reachable from it without another pop / send and must be the only exit
         ctx.check(any(cfg.reaches(b, bb, f) for f, _ in fl), R, "flush-reachable-after-pop", site(b, bb), ok="poll_flush reachable after the queue was polled", bad="poll_flush is not reachable after replies.pop_front()")
+
+
+def _flush_liveness(ctx):
+    """a request written into the sink but not flushed reaches the backend only if the connection task is polled again:
+    need_flush may answer `not yet` only after it polled the flush timer with the task's context (which registers the
+    wake-up); a `false` on any other path with bytes pending leaves the request in the buffer until unrelated traffic
+    arrives - its client gets silence"""
+    from ..sccp import Interp, Oracle, Int, Agg
+    F = ctx.F
+    b = F.one("common::batch::BatchState::need_flush")
+    sadt = F.adt("common::batch::BatchStrategy")
+    if b is None or sadt is None:
+        ctx.lost("C08.D5", "need_flush", "BatchState::need_flush / BatchStrategy not found")
+        return
+    ctx.analysed(b)
+    dom = cfg.dominators(b)
+    pt = [bb for bb, t in b.calls() if (callee_of(t) or callee_decl(t) or "").endswith("poll_tick")]
+    if not ctx.floor("C08.D5", "flush timer polls in need_flush", len(pt), 1):
+        return
+    rets = [(bb, i, st) for bb, i, st in b.assigns() if st["place"]["l"] == 0 and not st["place"]["p"]]
+    for vi, v in enumerate(sadt.variants):
+        def read(interp, bbx, place, val, vi=vi):
+            fs = [(norm(a), n) for a, n in place_fields(place)]
+            if fs and fs[-1][1] == "curr_wbuf_content_size":
+                return Int(5)
+            if fs and fs[-1][1] == "strategy":
+                return Agg(sadt.path, vi, ())
+            return None
+        res = Interp(F, b, Oracle(read=read)).run()
+        bad = None
+        for bb, i, st in rets:
+            if bb not in res.exec_blocks:
+                continue
+            rv = st["rv"]
+            if rv["k"] == "use" and "c" in rv["a"]:
+                if rv["a"]["c"].get("int") == 0:
+                    bad = (bb, "returns false")
+            elif rv["k"] == "use":
+                if not any(p_ in dom.get(bb, ()) for p_ in pt):
+                    bad = (bb, "returns a flag without having polled the flush timer")
+            elif rv["k"] == "binop":
+                val = res.return_value()
+                if v["name"] == "Disabled" and val != Int(1):
+                    bad = (bb, "does not answer true")
+        ctx.check(bad is None, "C08.D5", "need_flush:%s:bytes-pending" % v["name"], site(b, bad[0]) if bad else site(b), ok="false only after the flush timer was polled" if v["name"] != "Disabled" else "true",
+                  bad="with bytes pending and strategy %s, need_flush %s: the buffered request is not flushed and nothing wakes the connection task up" % (v["name"], bad[1] if bad else ""))
